@@ -36,6 +36,7 @@ RULE = ("One evaluation = one seeded execution of two real Managers (the "
         "Non-trivial: at least one ping/pong round trip happened and (a "
         "stall window was applied or a drop/stop occurred). Distinct: "
         "event-log digests among non-trivial runs.")
+RULE += (" Regime loss_at_selection: the link dies in the turn in which it is being selected (after the peer's KCM was read, before the Manager hears of the connection).")
 LEVEL_TEXT = ("Seeded exploration of timings. Let t* be the last time the "
               "Leader received anything on the connection (or the time it "
               "started using it). Silent peer: the Leader has dropped the "
